@@ -307,19 +307,20 @@ pub fn check_program(
                 _ => String::new(),
             };
             for v in std::mem::take(&mut side_rep.violations) {
-                let vm_op = v.sig.split('@').nth(1).unwrap_or(&v.sig).to_string();
-                let sig = if undefined {
-                    format!("undefined-input-invalid-trace/{vm_op}")
-                } else {
-                    format!("invalid-trace/{}", v.sig)
-                };
+                if undefined {
+                    // inputs the docs call undefined are outside C05 (only "no panic" is required):
+                    // an invalid trace is evidence, not a violation
+                    let vm_op = v.sig.split('@').nth(1).unwrap_or(&v.sig).to_string();
+                    rep.count("undefined_input_invalid_trace", &vm_op);
+                    rep.count("undefined_input_invalid_trace_by_instruction", &format!("{culprit} -> {vm_op}"));
+                    continue;
+                }
                 rep.violation(
-                    sig,
+                    format!("invalid-trace/{}", v.sig),
                     format!(
-                        "[{phase}] `{}` on stack (top first) {:?} executes successfully{} but its trace violates the AIR: {}",
+                        "[{phase}] `{}` on stack (top first) {:?} executes successfully but its trace violates the AIR: {}",
                         prog.to_source().replace('\n', " "),
                         stack,
-                        if undefined { format!(" (docs: undefined input of `{culprit}`)") } else { String::new() },
                         v.what
                     ),
                     json!({"kind": "case", "case": case.to_json(), "phase": phase, "side_monitor": true}),
@@ -865,6 +866,7 @@ fn build_stack(operands: &[u64], d: usize, salt: u64) -> Vec<u64> {
 
 fn eval_single(spec_kind: &str, prog: &ProgramText, stack: &[u64], nops: usize, rep: &mut Report, rng: &mut Rng8) {
     let chk = check_program(prog, stack, "single", rep, Some(rng), false);
+    rep.count("single_evals", spec_kind);
     let opclasses: Vec<&str> = stack.iter().take(nops.min(4)).map(|v| val_class(*v)).collect();
     let form = prog.tokens.first().map(|t| isa::param_form(t)).unwrap_or_default();
     rep.eval(&format!(
@@ -933,6 +935,19 @@ fn single_cases_for(spec: &Spec, rep: &mut Report, rng: &mut Rng8) {
                     ops[0] = *a;
                     ops[1] = *b;
                     let d = if rng.gen_bool(0.5) { 16 + rng.gen_range(0..=24) } else { rng.gen_range(nops..=16) };
+                    let st = build_stack(&ops, d, salt);
+                    eval_single(&spec.kind, &prog, &st, nops, rep, rng);
+                }
+            }
+        }
+        // extension-field elements (0, v) whose inversion exercises a carry corner of the base
+        // field arithmetic used by the host (2v = +-(2^32 + 2^31 - 1) mod p)
+        if matches!(spec.op, Op::Ext2Inv | Op::Ext2Div | Op::Ext2Mul) {
+            for v in [9223372031486066689u64, 9223372037928517632, 6442450944, 262146] {
+                for d in [4usize, 16, rng.gen_range(17..=40)] {
+                    let mut ops = good_ops(rng);
+                    ops[0] = v;
+                    ops[1] = 0;
                     let st = build_stack(&ops, d, salt);
                     eval_single(&spec.kind, &prog, &st, nops, rep, rng);
                 }
@@ -1019,7 +1034,7 @@ fn push_cases(rep: &mut Report, rng: &mut Rng8) {
     // the assembler must not panic)
     for c in [
         "const.lower=1", "const.1X=1", "const.A=1+", "const.A=B", "const.A=(1", "const.A=1)", "const.A=()", "const.A=",
-        "const.A=1++2", "const.A=+1", "const.A=1/0", "const.A=1//0", "const.A=0-1",
+        "const.A=+1", "const.A=1/0", "const.A=1//0", "const.A=0-1",
         "const.A=18446744069414584320+1", "const.A=18446744069414584320*2", "const.A=0x10+1", "const.A=((2))",
         "const.A=2*/3", "const.A=(1+2", "const.A=1+2)", "const.A=1//", "const.A=*2",
     ] {
@@ -1287,9 +1302,14 @@ pub fn run(cfg: &Cfg) -> Report {
         if v.sig.starts_with("undefined-input-") || v.sig.starts_with("invalid-trace/") {
             continue;
         }
-        let sig = &v.sig;
-        if let Some(k) = sig.split('/').next() {
-            quarantined.insert(k.to_string());
+        if let Some(k) = v.sig.split('/').next() {
+            // only systematic deviations (>= 25% of the single-instruction evaluations of the kind)
+            // and panics (in the dbg lane `exp` panics whenever the base is 0, which is common in
+            // sequences); input-specific ones (e.g. `mul.0` at depth 16) hardly ever mask a sequence
+            let n = rep.violation_counts.get(&v.sig).copied().unwrap_or(0);
+            if 4 * n >= rep.get_count("single_evals", k).max(1) || v.sig.contains("-panic/") {
+                quarantined.insert(k.to_string());
+            }
         }
     }
     let usable: Vec<usize> = (0..all.len()).filter(|i| !quarantined.contains(&all[*i].kind)).collect();
@@ -1338,6 +1358,26 @@ pub fn run(cfg: &Cfg) -> Report {
         }
     }
     rep.note("instruction_kinds", json!(all.len()));
+    rep.note(
+        "doc_errata",
+        json!([{
+            "file": "docs/src/user_docs/assembly/field_operations.md",
+            "instruction": "ext2mul",
+            "printed": "c1 <- (a0 + a1) * (b0 + b1) mod p",
+            "should_read": "c1 <- (a0 + a1) * (b0 + b1) - a0 * b0 mod p (product in F_p[x]/(x^2 - x + 2))",
+            "example": {"stack_top_first": [7, 5, 3, 2], "printed_formula_c1": isa::ext2_mul_as_printed(2, 3, 5, 7).1, "field_product_c1": isa::ext2_mul_true(2, 3, 5, 7).1},
+            "note": "the reference model uses the field product; docs/src/design/stack/field_ops.md (EXT2MUL, constraint on s2') has the analogous slip (subtracts s0*s2 instead of s1*s3)"
+        }, {
+            "file": "docs/src/user_docs/assembly/field_operations.md",
+            "instruction": "exp.uxx",
+            "printed": "Fails if xx is outside [0, 63)",
+            "note": "contradicts 'exp is equivalent to exp.u64'; the model accepts 0..=64 and requires rejection above 64"
+        }]),
+    );
+    rep.note(
+        "undefined_input_invalid_trace",
+        json!("u32 instructions executed on operands the docs call undefined (>= 2^32) may succeed with a trace that violates the AIR (see histogram undefined_input_invalid_trace, key = VM op); outside C05, not raised as violation"),
+    );
     rep.note("kinds_never_succeeding", json!(missing_ok));
     rep.note("documented_failures_never_observed", json!(missing_fail));
     rep.floor(missing_ok.is_empty(), "every-instruction-kind-observed-succeeding");
